@@ -102,14 +102,17 @@ def sites_in(prog, f):
 
 def _keywords(f, call):
     """keyword arguments of a call, with `**name` expanded when `name` is a local bound once to dict(k=v, ..) or to a
-    dict literal with constant keys"""
+    dict literal with constant keys (or when that dict is written at the call itself)"""
     kws = {}
     for k in call.keywords:
         if k.arg:
             kws[k.arg] = k.value
-        elif isinstance(k.value, ast.Name):
-            vals = [v for v in f.local_assigns().get(k.value.id, []) if isinstance(v, ast.AST)]
-            d = vals[0] if len(vals) == 1 else None
+        elif isinstance(k.value, (ast.Name, ast.Call, ast.Dict)):
+            if isinstance(k.value, ast.Name):
+                vals = [v for v in f.local_assigns().get(k.value.id, []) if isinstance(v, ast.AST)]
+                d = vals[0] if len(vals) == 1 else None
+            else:
+                d = k.value         # `**dict(k=v, ..)` / `**{'k': v}` written at the call
             if isinstance(d, ast.Call) and isinstance(d.func, ast.Name) and d.func.id == 'dict' and not d.args:
                 for kk in d.keywords:
                     if kk.arg:
